@@ -111,6 +111,13 @@ Definition sstep (o : op) (P : apool) : apool * outcome :=
                          then a_range a (Some (bl_append_range (fst a) (snd a) (firstn (y - x) (skipn x (snd a))))) else (a, Skipped))
   (* a position before the first element is outside [0,size) resp. [0,size]: refused, nothing changes *)
   | OEraseBefore i _ | OEmplaceBefore i _ _ | OInsertRangeBefore i _ _ => a_on P i (fun a => (a, Raised))
+  (* a constructor that raises leaves no object *)
+  | OConstructFrom i c j =>
+      if i =? j then (P, Skipped) else
+      match aget P j with
+      | None => (P, Skipped)
+      | Some a => a_construct P i (if length (snd a) <=? c then Some (c, snd a) else None)
+      end
   end.
 
 Fixpoint srun (ops : list op) (P : apool) : apool * list outcome :=
